@@ -35,7 +35,7 @@ func (g *hPW) newRef(name string) (*int64, int, int64) {
 func (g *hPW) create(set uint8, withTarget bool, t Entity) int {
 	x := g.x
 	p, s, v := g.newRef("ref")
-	var vals hVals
+	vals := hSymVals("pv")
 	comps := x.comps(set&^(1<<uP), &vals)
 	comps = append(comps, Component{ID: x.id[uP], Comp: &hP{P: p}})
 	var e Entity
@@ -45,6 +45,7 @@ func (g *hPW) create(set uint8, withTarget bool, t Entity) int {
 		e = x.w.NewEntityWith(comps...)
 	}
 	i := x.mCreated(e, set|1<<uP, t)
+	x.mSetVals(i, set&^(1<<uP), &vals)
 	x.p[i] = p
 	g.slot[i], g.val[i] = s, v
 	return i
@@ -81,7 +82,7 @@ func (g *hPW) checkRefs() {
 	}
 }
 
-const hNPtrOps = 12
+const hNPtrOps = 13
 
 func (g *hPW) step(op int) {
 	x := g.x
@@ -171,6 +172,11 @@ func (g *hPW) step(op int) {
 				x.p[j], x.s[j], g.slot[j] = nil, "", -1
 			}
 		}
+	case 12: // batch relation move: every component of the moved entities, incl. the relation's own data, must arrive
+		b := x.mkFilter(fR1, Entity{})
+		_, m := x.matching(fR1, Entity{})
+		vAssume(m >= 1)
+		x.opBatchSetRelation(b.f, fR1, Entity{}, uR1, x.pickOKTarget("newtgt"), vChoice("q", 2) == 1, false)
 	case 11: // child with pointer component for a parent, then the parent dies
 		g.create(1<<uR1, true, x.pickOKTarget("tgt"))
 	}
